@@ -109,6 +109,16 @@ func cmdLocals(args []string) int {
 			visit(fn)
 		}
 	}
+	// every function of the repository packages, so that a later run can tell new names from old ones
+	fns := map[string]localHint{}
+	for _, sp := range w.RepoPkgs {
+		for _, fn := range allFuncs(sp) {
+			if f, ok := fn.Object().(*types.Func); ok && fn.Synthetic == "" {
+				fns[funcKeyOf(f)] = localHint{}
+			}
+		}
+	}
+	out["$functions"] = fns
 	b, _ := json.MarshalIndent(out, "", " ")
 	os.Stdout.Write(append(b, '\n'))
 	return 0
@@ -156,4 +166,76 @@ func hintKind(h localHint) string {
 		return "iface"
 	}
 	return ts
+}
+
+// rebindRenamedHelpers: the contract of an unexported helper whose function no longer exists is applied to the one new
+// unexported function (a name the recorded tree did not have, no contract of its own) with the same receiver and the
+// same parameter and result types. A rename then keeps its contract, at the definition and at every call site.
+func (w *World) rebindRenamedHelpers() {
+	baseline := localHints["$functions"]
+	if baseline == nil {
+		return
+	}
+	var keys []string
+	for k := range w.FuncSpecs {
+		keys = append(keys, k)
+	}
+	sort.Strings(keys)
+	for _, k := range keys {
+		fs := w.FuncSpecs[k]
+		if fs.External || exportedKey(k) || w.LookupFunc(k) != nil {
+			continue
+		}
+		prefix := k[:strings.LastIndex(k, ".")+1]
+		var want []types.Type
+		okTypes := true
+		for _, p := range append(append([]SParam{}, fs.Params...), fs.Results...) {
+			t, err := w.ResolveType(funcHome[fs], p.Type)
+			if err != nil {
+				okTypes = false
+				break
+			}
+			want = append(want, t)
+		}
+		if !okTypes {
+			continue
+		}
+		var cands []*ssa.Function
+		for _, sp := range w.RepoPkgs {
+			for _, fn := range allFuncs(sp) {
+				f, ok := fn.Object().(*types.Func)
+				if !ok || fn.Synthetic != "" || f.Exported() {
+					continue
+				}
+				nk := funcKeyOf(f)
+				if _, old := baseline[nk]; old || w.FuncSpecs[nk] != nil || !strings.HasPrefix(nk, prefix) || strings.Contains(nk[len(prefix):], ".") {
+					continue
+				}
+				sig := f.Type().(*types.Signature)
+				if sig.Params().Len() != len(fs.Params) || sig.Results().Len() != len(fs.Results) {
+					continue
+				}
+				same := true
+				for i := 0; i < sig.Params().Len(); i++ {
+					if !types.Identical(sig.Params().At(i).Type(), want[i]) {
+						same = false
+					}
+				}
+				for i := 0; i < sig.Results().Len(); i++ {
+					if !types.Identical(sig.Results().At(i).Type(), want[len(fs.Params)+i]) {
+						same = false
+					}
+				}
+				if same {
+					cands = append(cands, fn)
+				}
+			}
+		}
+		if len(cands) == 1 {
+			nk := fnKey(cands[0])
+			delete(w.FuncSpecs, k)
+			w.FuncSpecs[nk] = fs
+			runNotes["contract of "+shortFn(k)+" applied to the renamed function "+shortFn(nk)+" (same receiver and signature, new name)"] = true
+		}
+	}
 }
